@@ -30,6 +30,15 @@ class Job:
 def run_job(job, work):
     if job.trace is None:
         tp, status, rc, out = C.run_sim(job.script, work, job.name, binary=job.binary)
+        job.driver_out = out
+        if "WARNING: DATA RACE" in out:
+            i = out.index("WARNING: DATA RACE")
+            rp = os.path.join(work, job.name + ".race.txt")
+            open(rp, "w").write(out[i:i + 6000])
+            job.race_text = out[i:i + 1500]
+            if (C.REPO + "/") not in out[i:]:
+                raise C.Machinery("data race inside the harness itself (no frame of the code under test):\n" + job.race_text)
+            job.race_report = rp
         if status != "OK":
             raise C.Machinery("driver %s did not finish: status=%r rc=%d\n%s" % (job.name, status, rc, out[-3000:]))
         job.trace = tp
@@ -99,6 +108,11 @@ def trace_family(pid, tier, work, mc, jobs, level_note, rule, extra_cov=None, wo
     classes, samples = set(), []
     ntraces = nlines = 0
     for j in done:
+        if getattr(j, "race_report", None):
+            note = "the race detector reported a data race while driver %s ran:\n%s" % (j.name, j.race_text)
+            rp = C.save_replay(pid, [j.race_report, os.path.join(work, j.name + ".script.json")], note)
+            write(pid, tier, mcs, ntraces, nlines, classes, samples, rule, level_note, t0, extra_cov, violations=1)
+            raise C.Violation(note, rp)
         if not j.accepted:
             note = explain_reject(j, work)
             rp = C.save_replay(pid, [j.trace, os.path.join(work, j.name + ".script.json")], note + "\nfocus=" + j.focus + " module=" + j.module)
@@ -149,13 +163,38 @@ def c12(pid, tier, work, replay):
         "amounts incl. negative and multi-word (unit 2^64, 10^30), executed on both drivers; distinct = (operation, ok, error class)")
 
 
-def pool_jobs(tag, focus, s, nt, nops, work, cfg=None, weights=None, chunks=1, drivers=("memory", "badger")):
+def pool_jobs(tag, focus, s, nt, nops, work, cfg=None, weights=None, chunks=1, drivers=("memory", "badger"), binary="vipsim"):
     jobs = []
     for drv in drivers:
         for c in range(chunks):
-            sc = GP.pool_script(s * 1000 + c * 17 + (3 if drv == "badger" else 0), max(1, nt // chunks), nops, drv, work, cfg=cfg, weights=weights)
-            jobs.append(Job("%s-%s-%d" % (tag, drv, c), sc, "VipPoolTrace", "VipPoolTrace.cfg", focus))
+            sc = GP.pool_script(s * 1000 + c * 17 + (3 if drv == "badger" else 0), max(1, nt // chunks), nops, drv, work, cfg=cfg, weights=weights,
+                                race=(binary != "vipsim"))
+            jobs.append(Job("%s-%s-%d" % (tag, drv, c), sc, "VipPoolTrace", "VipPoolTrace.cfg", focus, binary=binary))
     return jobs
+
+
+RACE_CFG = dict(unit="1", price=60000000, minbal="off", fee=0, wmin=5)   # one unit per microsecond: real elapsed times bill something
+
+
+def nonce_race_jobs(tag, s, tier, work, focus="C05race"):
+    n = sized(tier, 1500, 20000)
+    return [Job("%s-%s" % (tag, drv), GP.nonce_race_script(s * 31 + 5, n if drv == "memory" else n // 5, drv, work), "VipPoolTrace", "VipPoolTrace.cfg", focus, binary="viprace")
+            for drv in ("memory", "badger")]
+
+
+def race_jobs(tag, s, tier, work, kind="ledger", focus=None):
+    """real clock, real parallelism, race detector: conservation laws instead of exact amounts"""
+    nt, nops = sized(tier, (10, 30), (120, 50))
+    if kind == "ledger":
+        w = dict(burst=45, sburst=20, update=20, credit=4, addnode=4, reconnect=4, close=1, reopen=2, forged=1, stale=2, mode=1,
+                 withdraw=0, wburst=0, client=0, host=0, deposit=0, settlemode=0, sleep=0)
+        focus0 = "C10race"
+    else:
+        w = dict(wburst=45, credit=20, deposit=10, addnode=5, update=10, withdraw=5, settlemode=3, burst=0, sburst=0, sleep=0, client=0, host=0, mode=0)
+        focus = "C07race"
+    if kind == "ledger":
+        nt, nops = nt * 3, max(10, nops // 3)     # many short sessions: the start-up bursts are where first credits race
+    return pool_jobs(tag, focus or focus0, s + 77, nt, nops, work, cfg=RACE_CFG, weights=w, chunks=1 if tier == "quick" else 4, binary="viprace")
 
 
 def pxx(pid, tier, work, replay):
@@ -190,7 +229,7 @@ def pool_prop(tag, focus, rule, mc, cfg=None, weights=None, extra_jobs=None, qui
 
 def store_ledger_jobs(s, tier, work):
     nt, nops = sized(tier, (20, 40), (300, 60))
-    return [Job("c01-store-%s" % drv, GS.store_script(s * 1000 + 101, nt, nops, drv, work), "VipStoreTrace", "VipStoreTrace.cfg", "ledger")
+    return race_jobs("c01race", s, tier, work, "ledger", focus="C01race") + [Job("c01-store-%s" % drv, GS.store_script(s * 1000 + 101, nt, nops, drv, work), "VipStoreTrace", "VipStoreTrace.cfg", "ledger")
             for drv in ("memory", "badger")]
 
 
@@ -243,7 +282,8 @@ c07 = pool_prop(
     "seeded sessions of credit accrual (billing and direct credit), deposits, repeated withdrawals, settlement failures, "
     "fees 0/10, minimum off/5/50; compared: outcome, amount paid, credit left, cumulative paid per wallet",
     lambda tier: [("VipStoreMC", "VipStoreMC_bal.cfg")] + ([("VipPoolMC", "VipPoolMC_bill_q.cfg")] if tier == "quick" else [("VipPoolMC", "VipPoolMC_bill.cfg")]),
-    weights=dict(withdraw=30, credit=14, deposit=10, settlemode=8, addnode=8, update=25, sleep=10, forged=4))
+    weights=dict(withdraw=30, credit=14, deposit=10, settlemode=8, addnode=8, update=25, sleep=10, forged=4, wburst=6),
+    extra_jobs=lambda s, tier, work: race_jobs("c07race", s, tier, work, "wallet"))
 
 c08 = pool_prop(
     "c08", "C08",
@@ -268,8 +308,9 @@ def c05(pid, tier, work, replay):
     for drv in ("memory", "badger"):
         jobs.append(Job("c05-%s" % drv, GS.nonce_script(s * 1000 + 7, nt, nops, drv, work), "VipStoreTrace", "VipStoreTrace.cfg", "nonce"))
     pt, pops = sized(tier, (16, 45), (300, 70))
-    jobs += pool_jobs("c05p", "C05", s, pt, pops, work, weights=dict(stale=30, legacy=10, update=25, sleep=12, forged=4),
+    jobs += pool_jobs("c05p", "C05", s, pt, pops, work, weights=dict(stale=30, legacy=10, update=25, sleep=12, forged=4, burst=4, sburst=4),
                       chunks=1 if tier == "quick" else 4)
+    jobs += nonce_race_jobs("c05race", s, tier, work)
     return trace_family(
         pid, tier, work, [("VipStoreMC", "VipStoreMC_nonce.cfg")], jobs,
         ["nonce values are abstracted to 1/1000 s units relative to the run epoch"] + POOL_ASSUME,
@@ -425,7 +466,26 @@ def c13(pid, tier, work, replay):
         extra_cov={"crash_rounds": rounds, "kill_points": kinds})
 
 
+def c10(pid, tier, work, replay):
+    s = C.seed()
+    nt, nops = sized(tier, (24, 40), (400, 60))
+    chunks = 1 if tier == "quick" else 8
+    w = dict(burst=40, update=15, sleep=12, credit=4, deposit=3, addnode=3, reconnect=4, close=1, reopen=2, forged=1, stale=1, mode=0, client=0, host=0)
+    w["sburst"] = 15
+    jobs = pool_jobs("c10", "C10", s, nt, nops, work, weights=w, chunks=chunks)
+    jobs += race_jobs("c10race", s, tier, work, "ledger")
+    jobs += nonce_race_jobs("c10nonce", s, tier, work)
+    return trace_family(
+        pid, tier, work, [("VipStoreMC", "VipStoreMC_bal.cfg"), ("VipPoolMC", "VipPoolMC_bill_q.cfg" if tier == "quick" else "VipPoolMC_bill.cfg")], jobs,
+        POOL_ASSUME + ["bursts run under the fake clock with a single P: goroutines interleave at blocking points (channel, mutex, pipe I/O, badger commit), "
+                       "not in parallel; real parallelism and the race detector are exercised by the separate real-clock runs"],
+        "seeded sessions in which 2-5 requests (keep-alives, peer requests, connects, account linking, withdrawals, racing copies of one request) "
+        "from agents that share hosts and wallets are issued concurrently on both store drivers; TLC searches for a one-at-a-time order of the "
+        "atomic VipPool endpoints that explains every reply, every instruction sent to an agent and the complete final state")
+
+
 CHECKS = {
+    "C10": c10,
     "C13": c13,
     "C19": c19,
     "PXX": pxx,
